@@ -18,8 +18,8 @@ EXPLANATION = ("For each engine skeleton the presence of every operator and defu
                "components is a path; all input values are symbolic finite reals. The real Engine.is_ready(errors) runs, then the real "
                "Engine.process: on every path where is_ready reported no errors, no path of process may raise (for any finite inputs); "
                "on every path where a component the loaded rules/outputs need is absent, errors must be non-empty and name it.")
-BOUNDS = {"quick": {"skeletons": "10 (and only / or only / both with hedges / `a or b and c` / no connectives / Takagi-Sugeno / Tsukamoto / hybrid "
-                                 "with a rule concluding both kinds / two blocks / First activation)", "presence": "all subsets of up to 8 components per engine",
+BOUNDS = {"quick": {"skeletons": "11 (and only / or only / both with hedges / `a or b and c` / no connectives / Takagi-Sugeno / Tsukamoto / hybrid "
+                                 "with a rule concluding both kinds / weighted outputs before integral ones / two blocks / First activation)", "presence": "all subsets of up to 8 components per engine",
                     "inputs": "all finite reals"},
           "thorough": {"skeletons": "quick + 11 more: one per activation method (Last, Highest, Lowest, Proportional, Threshold, First with threshold) on rules "
                                     "with and/or/hedges/weights, a weighted-defuzzified output read by a later block, parentheses and weights, three blocks, "
@@ -54,6 +54,10 @@ def skeletons():
                                "blocks": [blk(["if X is a then O is a and P is b", "if Y is b then P is a and O is b"])]}
     S_["two-blocks"] = {"inputs": ins2, "outputs": [out("O", ("Centroid", 2)), out("P", ("WeightedAverage",), CONST, None)],
                         "blocks": [blk(["if X is a and Y is a then O is a"]), blk(["if X is b or O is a then P is b"])]}
+    # outputs in the order weighted, integral, weighted, integral: a readiness scan must look at every output variable
+    S_["hybrid-weighted-first"] = {"inputs": ins2, "outputs": [out("P", ("WeightedAverage",), CONST, None), out("O", ("Centroid", 2)),
+                                                               out("Q", ("WeightedSum",), CONST, None), out("R", ("Bisector", 2))],
+                                   "blocks": [blk(["if X is a then P is a and O is a", "if Y is b or X is b then O is b and Q is b and R is a"])]}
     S_["first-activation"] = {"inputs": ins2, "outputs": [out("O", ("LargestOfMaximum", 2))],
                               "blocks": [blk(["if X is a and Y is b then O is a", "if X is b or Y is a then O is b"], ("First", 1, 0.0))]}
     return S_
